@@ -513,7 +513,7 @@ def check_reference_fields_carried(ck, R):
     locally, or the external stand-in (asked for, or fallen back to when the lookup fails) — the values it was
     handed reach the constructed object: at every construction site, and through the stand-in's own constructor
     down to the fields of the reference."""
-    fq = FA(ck, "reference.FunctionReference.from_qualified_name")
+    fq = _unrolled(FA(ck, "reference.FunctionReference.from_qualified_name"))
     own = [p for p in fq.fi.params if p not in ("self", "cls")]
     ck.need(all(p in own for p in CARRIED), "from_qualified_name no longer takes %s" % (CARRIED,))
     stub_params = _ctor_params(ck, "external.UnboundExternalMementoFunction")
@@ -893,7 +893,7 @@ def _unrolled(fa: FA) -> FA:
     for a, b in zip(ast.walk(node2), ast.walk(fa.node)):
         if isinstance(a, ast.For):
             origin[id(a)] = b
-        elif isinstance(a, (ast.DictComp, ast.ListComp)):
+        elif isinstance(a, (ast.DictComp, ast.ListComp, ast.GeneratorExp)):
             comp_origin[id(a)] = b
     node2.body = block(node2.body)
 
@@ -936,6 +936,8 @@ def _unrolled(fa: FA) -> FA:
 
         if isinstance(c, ast.DictComp):
             return ast.copy_location(ast.Dict(keys=[inst(c.key, r) for r in rows], values=[inst(c.value, r) for r in rows]), c)
+        if isinstance(c, ast.GeneratorExp):
+            return ast.copy_location(ast.Tuple(elts=[inst(c.elt, r) for r in rows], ctx=ast.Load()), c)
         return ast.copy_location(ast.List(elts=[inst(c.elt, r) for r in rows], ctx=ast.Load()), c)
 
     class Comps(ast.NodeTransformer):
@@ -948,6 +950,23 @@ def _unrolled(fa: FA) -> FA:
             return c
 
         visit_ListComp = visit_DictComp
+
+        def visit_Assign(self, st):
+            # `a, b = (f(k) for k in <literal table>)` (also through tuple(..) / list(..)): the names are bound to the members one by one
+            self.generic_visit(st)
+            v = st.value
+            while isinstance(v, ast.Call) and isinstance(v.func, ast.Name) and v.func.id in ("tuple", "list") and len(v.args) == 1 and not v.keywords:
+                v = v.args[0]
+            if isinstance(v, ast.GeneratorExp):
+                v = written_out(v) or v
+            tg = st.targets[0] if len(st.targets) == 1 else None
+            if isinstance(tg, (ast.Tuple, ast.List)) and isinstance(v, (ast.Tuple, ast.List)) and len(tg.elts) == len(v.elts) >= 1 \
+                    and all(isinstance(t, ast.Name) for t in tg.elts) and not any(isinstance(x, ast.Starred) for x in v.elts):
+                bound = {t.id for t in tg.elts}
+                if len(bound) == len(tg.elts) and not any(isinstance(n, ast.Name) and n.id in bound for x in v.elts for n in ast.walk(x)):
+                    changed[0] = True
+                    return [ast.copy_location(ast.Assign(targets=[ast.Name(id=t.id, ctx=ast.Store())], value=x), st) for t, x in zip(tg.elts, v.elts)]
+            return st
 
     node2 = Comps().visit(node2)
     if not changed[0]:
